@@ -3,6 +3,7 @@ import MsqModel.Driver.Codec
 import MsqModel.Driver.ShowVal
 import MsqModel.Parse.Entry
 import MsqModel.Print
+import MsqModel.Driver.Ext
 open Lex Drv
 
 def cfgOfIdx : Nat → Cfg Gen.Cls
@@ -34,7 +35,7 @@ def respond (line : String) : String :=
     let c := certOfIdx i.toNat!
     let bad := badCells (cfgOfIdx i.toNat!) c.1 c.2
     "CELLS " ++ " ".intercalate (bad.map fun (s, c) => s!"{s.name}:{match c with | some n => toString n | none => "default"}")
-  | _ => "BADREQ"
+  | parts => Drv.dispatchExt parts
 
 partial def loop (h : IO.FS.Stream) (out : IO.FS.Stream) : IO Unit := do
   let line ← h.getLine
